@@ -39,6 +39,16 @@ NEG = [
     ("NetcdfIO", "MC_Netcdf_neg_place", "SelReturnsOwn"),
     ("NetcdfIO", "MC_Netcdf_neg_meta", "MetaOwn"),
     ("StepAlgebra", "MC_Step_neg_sign", "CodeIsTaylor3"),
+    ("Units", "MC_Units_neg_b_no_kzinv", "Similarity"),
+    ("Units", "MC_Units_neg_eig_no_kzinv", "Similarity"),
+    ("Units", "MC_Units_neg_mean_no_kz", "Similarity"),
+    ("System", "MC_System_neg_noinit", None),
+    ("System", "MC_System_neg_nocatch", "NeverFatal"),
+    ("CacheConc", "MC_CacheConc_neg_nocatch", "NeverFatalC"),
+    ("MCSolver", "MC_Mirror_neg_halo", None),
+    ("MCSolver", "MC_Translate_neg_halo", "PointReflectIn"),
+    ("MCSolver", "MC_Shape_neg_halo", "HaloIsPadding"),
+    ("MCSolver", "MC_Conserve_neg_halo", "HaloIsPadding"),
     ("Orientation", "MC_Orientation_neg_sincos", "Cardinals"),
     ("Orientation", "MC_Orientation_neg_sign", "Cardinals"),
 ]
